@@ -17,3 +17,11 @@ Definition s_comma : str := lit ",".
 Definition s_current : str := lit "current".
 Definition s_accumulator : str := lit "accumulator".
 Definition s_empty : str := nil.
+
+(** The supported operator names: the full JsonLogic set plus "?:". *)
+Definition spec_name_lits : list str :=
+  List.map lit
+    ("==" :: "!=" :: "===" :: "!==" :: "!" :: "!!" :: "<" :: "<=" :: ">" :: ">=" :: "+" :: "-" :: "*" :: "/"
+     :: "%" :: "max" :: "min" :: "merge" :: "in" :: "cat" :: "substr" :: "log" :: "var" :: "missing"
+     :: "missing_some" :: "if" :: "?:" :: "or" :: "and" :: "map" :: "filter" :: "reduce" :: "all" :: "some"
+     :: "none" :: nil).
